@@ -575,7 +575,7 @@ pub fn run_flush(ctx: &Ctx) {
     let n_offsets = if ctx.tier_thorough { 50 } else { 7 };
     let mut idx = 0usize;
     for &rate in &rates {
-        for kind in ["header3", "header2", "full3", "full2", "long_header3", "two_pending"] {
+        for kind in ["header3", "header2", "full3", "full2", "long_header3", "two_pending", "open_then_header3", "open_then_header2"] {
             if kind == "two_pending" && rate > 22050 && !ctx.tier_thorough {
                 continue; // 140 s of audio per case
             }
@@ -606,7 +606,26 @@ pub fn run_flush(ctx: &Ctx) {
                 let wait = 135.0 + 1.4 - dur_new - 0.6 + rng.unit() * 1.2;
                 a.silence(wait, &mut rng);
             }
-            let nh = if kind == "header2" { 2 } else { 3 };
+            let mut expect_hdrs: Vec<String> = vec![];
+            if kind.starts_with("open_then_header") {
+                // an earlier alert whose trailer has not come (yet): its forced-EOM timer is armed and far from
+                // expiry when the new header is cut close
+                let mut h0 = gen_header_any(&mut rng).text().into_bytes();
+                if h0 == h {
+                    h0[6] ^= 1;
+                }
+                for k in 0..3 {
+                    a.burst(16, &h0, &mut rng);
+                    if k < 2 {
+                        a.silence(lg.pause, &mut rng);
+                    }
+                }
+                let wait = 3.0 + rng.unit() * 20.0;
+                a.silence(wait, &mut rng);
+                expect_hdrs.push(hex(&h0));
+            }
+            expect_hdrs.push(hex(&h));
+            let nh = if kind == "header2" || kind == "open_then_header2" { 2 } else { 3 };
             for k in 0..nh {
                 a.burst(16, &h, &mut rng);
                 if k + 1 < nh {
@@ -678,7 +697,7 @@ pub fn run_flush(ctx: &Ctx) {
                 }
                 out.spec(&format!(
                     "spec.sig c14 {},{} [{}] => {} | {} | {}",
-                    hex(&h),
+                    expect_hdrs.join("+"),
                     full as u8,
                     label,
                     msgs_str(&before),
